@@ -273,4 +273,31 @@ PROPS = {
              "bound": "same name used by elements of different kinds of one namespace in A and B (object kinds, table kinds, typedef kinds; symbolic kind choice)", "timeout": 400, "extra_modules": ["tokenizer"]},
         ],
     },
+    "C17": {
+        "files": ["a2lfile/src/loader.rs", "a2lfile/src/lib.rs"],
+        "trusted": T_STD + ["E2 models of String::from_utf8 / from_utf16 / char::from_u32 (std decoders are modelled, not executed)", "file access modelled by a per-path virtual file system (File::open / read_data)"],
+        "assumptions": ["characters: first one ASCII non-NUL, the others any Unicode scalar value except NUL and U+FEFF; k <= 3 characters",
+                        "Latin-1 fallback is asserted for odd lengths (where neither UTF-16 nor UTF-32 detection applies)"],
+        "jobs": [
+            {"engine": "E2", "module": "loader", "harness": "h_encoding_%d" % k, "functions": ["loader::load", "loader::decode_raw_bytes"],
+             "bound": "%d symbolic scalar values x 10 encodings (UTF-8/16LE/16BE/32LE/32BE, each with and without BOM)" % k, "timeout": 300}
+            for k in (1, 2, 3)
+        ] + [
+            {"engine": "E2", "module": "loader", "harness": "h_decode_raw_%d" % n, "functions": ["loader::decode_raw_bytes"],
+             "bound": "every byte string of length %d: no panic; odd length and not UTF-8 => Latin-1" % n, "timeout": 300, "quick": n <= 3}
+            for n in (1, 2, 3, 4)
+        ],
+    },
+    "C16": {
+        "files": ["a2lfile/src/tokenizer.rs", "a2lfile/src/loader.rs", "a2lfile/src/writer.rs", "a2lfile/src/parser.rs", "a2lfile/src/specification.rs", "a2lfile/src/lib.rs"],
+        "trusted": T_STD + ["file access modelled by a per-path virtual file system (File::open / read_data); make_include_filename returns the name as written (directories are not modelled)"],
+        "assumptions": ["documents of three block-level elements split at element boundaries into main file + inc1 + inc2 (inc2 included from inc1); quoted and unquoted names; all files in one directory",
+                        "A2ML includes, sub-directories and path separators are outside the claim"],
+        "jobs": [
+            {"engine": "E2", "module": "lib", "harness": "h_include_transparent", "functions": ["load", "tokenizer::tokenize", "parser::ParserState::get_incfilename", "writer::Writer::add_group", "A2lFile::write_to_string", "A2lObject::merge_includes", "loader::load"],
+             "bound": "36 splittings x {quoted, unquoted}", "timeout": 400, "extra_modules": ["tokenizer"], "validate": 36},
+            {"engine": "E2", "module": "lib", "harness": "h_include_missing", "functions": ["load", "tokenizer::tokenize", "loader::load"],
+             "bound": "missing include file, directly or nested, quoted or unquoted", "timeout": 200, "extra_modules": ["tokenizer"]},
+        ],
+    },
 }
